@@ -421,6 +421,7 @@ Section Sim.
       inv Hst. eexists. split; [reflexivity|]. nodd cl.
       apply Rel_set_ck; assumption.
     - discriminate.
+    - discriminate.
   Qed.
 
   (* ---------------------------------------------------------------------------------------------- *)
